@@ -99,7 +99,7 @@ def _compute(ctx, suf, entry, monitor_kind, log=None):
            'regstores': dict(((p, l), sorted(v, key=repr)) for (p, l), v in res.obs_regstores.items()),
            'ip4calls': dict((k, sorted(v, key=repr)) for k, v in res.obs_ip4.items()),
            'opaque': sorted(res.obs_opaque), 'free_members_sites': sorted(res.obs_free_members, key=repr),
-           'parent': res.parent, 'accept': sorted(dfa.accept), 'dfa_dead': sorted(dfa.dead_states)}
+           'sampled': bool(getattr(res, 'sampled', False)), 'parent': res.parent, 'accept': sorted(dfa.accept), 'dfa_dead': sorted(dfa.dead_states)}
     return out
 
 
